@@ -353,8 +353,9 @@ end NexoVerif.CQ
 `Sender::send` waits on an `async_event::Event` with `queue.push` as the predicate and notifies the receiver's
 `DiatomicWaker` after a successful push; `Receiver::recv` waits on the `DiatomicWaker` with `queue.pop` as the
 predicate, drops the popped message (which frees its slot) and calls `notify_one` on the `Event`.  M-CHAN has any
-number of senders, the lock-protected operations of the wait set as atomic steps, spurious polls, and every
-interleaving.  The queue is the two counters that M-QUEUE-C justifies (Full exactly when full, Empty exactly when
+number of senders, the lock-protected operations of the wait set as atomic steps, spurious polls, cancellation of a
+pending send at any moment (the future is dropped: its notifier is cancelled and a notification it had already
+received is passed on), and every interleaving.  The queue is the two counters that M-QUEUE-C justifies (Full exactly when full, Empty exactly when
 empty). -/
 namespace NexoVerif.Chan
 
